@@ -8,6 +8,7 @@ mod k2d;
 mod kmisc;
 mod kmesh;
 mod kseries;
+mod kcurve;
 
 pub fn f(v: &Value) -> f64 {
     match v {
@@ -43,6 +44,8 @@ fn main() {
     } else if let Some(v) = kmesh::run(&kernel, &a) {
         v
     } else if let Some(v) = kseries::run(&kernel, &a) {
+        v
+    } else if let Some(v) = kcurve::run(&kernel, &a) {
         v
     } else if let Some(v) = kmisc::run(&kernel, &a) {
         v
